@@ -738,7 +738,7 @@ macro_rules! make_ewr_system {
             let canary = Canary(name);
             let mut cap = 0u32;
             move |mut local: Local<u32>, mut c: Commands, mut ev: EvReaders, er: EntReaders, mut acc: Access,
-                  loc: EntityLocal<Ewr<$n>>, other: EntityReactor<Ewr<$m>>, ents: &bevy::ecs::entity::Entities|
+                  mut loc: EntityLocal<Ewr<$n>>, other: EntityReactor<Ewr<$m>>, ents: &bevy::ecs::entity::Entities|
             {
                 let _ = &canary;
                 let run = *local;
@@ -746,6 +746,14 @@ macro_rules! make_ewr_system {
                 // `EntityLocal` panics unless the run was caused by an entity reaction for this reactor.
                 EXPECT_PANIC.with(|e| e.set(true));
                 let l = std::panic::catch_unwind(std::panic::AssertUnwindSafe(|| { let (e, v) = loc.get(); (e, *v) })).ok();
+                // the other accessors of `EntityLocal` must agree with `get` (and `get_mut` hands out the same entity's data)
+                if let Some((e, v)) = l
+                {
+                    let e2 = std::panic::catch_unwind(std::panic::AssertUnwindSafe(|| loc.entity())).ok();
+                    let m = std::panic::catch_unwind(std::panic::AssertUnwindSafe(|| { let (e3, v3) = loc.get_mut(); let r = (e3, *v3); *v3 = r.1; r })).ok();
+                    if e2 != Some(e) || m != Some((e, v))
+                    { log(format!("accessor-mismatch EntityLocal get={}:{} entity={:?} get_mut={:?}", name_of(e), v, e2.map(name_of), m.map(|(x, y)| (name_of(x), y)))); }
+                }
                 EXPECT_PANIC.with(|e| e.set(false));
                 let l = l.map(|(e, v)| format!("{}:{}", name_of(e), v)).unwrap_or("-".into());
                 log(format!("body s{} {} {} loc={}", name, run_label(run, cap), obs, l));
